@@ -86,7 +86,30 @@ def has(t, kinds):
     return False
 
 
+def named_underscore_case(rep, drv, rnd, i):
+    """`_X` is an ordinary variable: only the bare `_` is new at every occurrence"""
+    V = lambda n: ('V', n)
+    u1, u2, u3 = rnd.sample(['_A', '_B', '_Head', '_T', '_1', '__', '_x', '_X1'], 3)
+    prog = [('pu', [('F', 'f', [V(u1), V(u1)])], 'tru'),
+            ('qu', [('P', [V(u1)], V(u2)), V(u1), V(u2)], 'tru'),
+            ('eu', [V(u3)], ('call', '=', [V(u3), ('A', 'a')]), True),
+            ('ru', [V(u1), V(u2)], ('conj', ('call', '=', [V(u1), ('F', 'g', [V(u2), ('_',), ('_',)])]), ('call', '=', [V(u2), ('A', 'k')])), True)]
+    A = lambda x: [Sym('a'), x]
+    lst = [Sym('f'), '.', A('x'), [Sym('f'), '.', A('y'), A('[]')]]
+    ops = [('load', 'overwrite', prog),
+           ('query', 'pu', ('all',), [[Sym('f'), 'f', A('a'), A('b')]]), ('query', 'pu', ('all',), [[Sym('f'), 'f', A('a'), A('a')]]),
+           ('query', 'pu', ('all',), [[Sym('f'), 'f', [Sym('v'), 0], A('c')]]),
+           ('query', 'qu', ('all',), [lst, [Sym('v'), 0], [Sym('v'), 1]]),
+           ('query', 'eu', ('all',), [A('b')]), ('query', 'eu', ('all',), [[Sym('v'), 0]]),
+           ('query', 'ru', ('all',), [[Sym('v'), 0], [Sym('v'), 1]])]
+    rep.count('named-underscore-variables')
+    if scen.three_way(rep, drv, ops, 'case %d named underscore variables' % i) == 'ok':
+        rep.nontriv(scen.norm(scen.ops_json(ops[:1])))
+
+
 def case(rep, drv, rnd, i, tier):
+    if i % 12 == 11:
+        return named_underscore_case(rep, drv, rnd, i)
     lit = literal(rnd)
     pos = rnd.choice(['fact', 'head', 'body', 'dynamic'])
     rep.evaluations += 1
